@@ -363,6 +363,9 @@ impl<'a> Lexer<'a> {
                 return Ok(Token::StringTok);
             }
         }
+        // The loop above leaves the last byte unread. Consume it so that the span of the error ends
+        // at the end of the input and not inside a multi-byte character.
+        self.bytes.next();
         Err("Unterminated multiline string. Add \"# after the end of your string.".to_string())
     }
 
